@@ -73,15 +73,25 @@ def evolving_universe(ctx, rng, fam, k, steps, fault_rate=0.0):
             # in the objects must still give fresh answers afterwards
             plan = ("once", rng.randrange(0, 6))
         hist.append([F._jsonable(call), F._jsonable(plan)])
-        F.run_call(rec, ffam, call, F.Plan(plan), snaps_on=False)
+        pre = snap
+        ex = F.run_call(rec, ffam, call, F.Plan(plan), snaps_on=False)
         snap = rec.snapshot()
         if M.invariant(snap):
             return
-        yield rec.nodes, [p for p, _ in snap], [list(c) for _, c in snap], {"family": fam, "state": [list(c) for c in ch0], "history": list(hist)}
+        par, ch = [p for p, _ in snap], [list(c) for _, c in snap]
+        if ex.outcome == "returned" and not ex.faults:
+            # the reference state after a successful call is what the call is specified to produce, not what the
+            # library's own (possibly memoised) children/parent properties report afterwards
+            out, mch, _ = M.model_call(M.ch_of(pre), call, F.base_family(ffam))
+            if out in ("ok", "noop"):
+                par, ch = gen.parents_of(mch), [list(c) for c in mch]
+        yield rec.nodes, par, ch, {"family": fam, "state": [list(c) for c in ch0], "history": list(hist)}
 
 
 def replay_universe(case):
     """Rebuild the universe of a case produced by evolving_universe."""
+    from . import gen
+    from . import model as M
     fam = case["family"]
     ffam = {"Node": "Node", "AnyNode": "AnyNode", "VAL": "VALNM"}.get(fam, fam)
 
@@ -97,7 +107,13 @@ def replay_universe(case):
             call, plan = ent
         else:
             call, plan = ent, ["none"]
-        F.run_call(rec, ffam, tup(call), F.Plan(tup(plan)), snaps_on=False)
+        pre = rec.snapshot()
+        ex = F.run_call(rec, ffam, tup(call), F.Plan(tup(plan)), snaps_on=False)
         snap = rec.snapshot()
-        states.append((rec.nodes, [p for p, _ in snap], [list(c) for _, c in snap]))
+        par, ch = [p for p, _ in snap], [list(c) for _, c in snap]
+        if ex.outcome == "returned" and not ex.faults and not M.invariant(pre):
+            out, mch, _ = M.model_call(M.ch_of(pre), tup(call), F.base_family(ffam))
+            if out in ("ok", "noop"):
+                par, ch = gen.parents_of(mch), [list(c) for c in mch]
+        states.append((rec.nodes, par, ch))
     return states
